@@ -596,7 +596,7 @@ class EngineRuns:
     def get(self):
         if self.pending is not None:
             try:
-                out = self.pending.get(timeout=3000)
+                out = self.pending.get(timeout=8 * 3600)
                 self.pool.close()
                 self.pool.join()
                 return out
@@ -623,10 +623,14 @@ def _num(v) -> Optional[Fraction]:
     return None
 
 
-def same_value(ev, mv, typ, mode, stats=None) -> bool:
-    """ev: raw engine value; mv: model/reference value (None | int | 'p/q' | Fraction | str | bool)"""
+def same_value(ev, mv, typ, mode, stats=None, strict=False) -> bool:
+    """ev: raw engine value; mv: model/reference value (None | int | 'p/q' | Fraction | str | bool); strict: the model value must
+    also be of the kind the engine's result type announces (VInt for Integer, VNum for Number)"""
     if ev is None or mv is None:
         return ev is None and mv is None
+    if strict and ((typ == "Integer" and not (isinstance(mv, int) and not isinstance(mv, bool))) or
+                   (typ == "Number" and not (isinstance(mv, str) and "/" in mv))):
+        return False
     if typ in ("Integer", "Number"):
         e, m = _num(ev), _num(mv)
         if e is None or m is None:
@@ -679,7 +683,7 @@ def compare_rows(er, ids, ms, rows, modes, stats=None, who="model") -> Optional[
             if n in eids:
                 continue
             mode = modes.get(n, modes.get("*", "exact"))
-            if not same_value(d[n], mk[k][n], types[n], mode, stats):
+            if not same_value(d[n], mk[k][n], types[n], mode, stats, strict=(who == "model")):
                 return (f"group {dict(zip(eids, k))} component {n} ({types[n]}, {mode}): engine {d[n]!r}"
                         f"{' (squared %r)' % (d[n] * d[n]) if mode == 'std' and isinstance(d[n], float) else ''}, {who} {mk[k][n]!r}")
     return None
@@ -921,8 +925,8 @@ def disagreement_key(c, er, verdict_engine_bad: bool) -> str:
     s = c["stmts"][-1][1]
     form = "standalone" if s["kind"] == "agg" else "clause"
     if c.get("limitation"):
-        tail = f"{er['err'][0]}-{er['err'][1]}" if not er["ok"] else "wrong-result"
-        return f"{c['limitation']}:{tail}"
+        # the error class/code is NOT part of the key (it changes when the engine wraps raw errors); it is reported in `what`
+        return f"{c['limitation']}:{'engine-error' if not er['ok'] else 'wrong-result'}"
     ops = "+".join(sorted(set(_ops_of(s))))[:60]
     if not er["ok"]:
         return f"engine-error:{er['err'][0]}-{er['err'][1]}:{form}:{ops}"
